@@ -157,10 +157,11 @@ current offset (all footprints lie below it) -/
 theorem ptrInvH_mono {H H' : Nat × Nat → Prop} {e : Enc} (hinv : PtrInvH H e)
     (himp : ∀ iv : Nat × Nat, iv.1 < iv.2 → iv.2 ≤ e.offset → H iv → H' iv) : PtrInvH H' e := by
   intro p hp
-  obtain ⟨ls, en, F, h1, h2, h3, h4⟩ := hinv p hp
-  refine ⟨ls, en, F, h1, h2, h3, fun iv hiv => ?_⟩
-  have := h2.footprint_le (Nat.le_refl _) iv hiv
-  exact himp iv this.1 (by omega) (h4 iv hiv)
+  rcases hinv p hp with ⟨ls, en, F, h1, h2, h3, h4⟩ | hd
+  · refine Or.inl ⟨ls, en, F, h1, h2, h3, fun iv hiv => ?_⟩
+    have := h2.footprint_le (Nat.le_refl _) iv hiv
+    exact himp iv this.1 (by omega) (h4 iv hiv)
+  · exact Or.inr hd
 
 /-- appending bytes past the end -/
 theorem ptrInvH_emitSlice {H : Nat × Nat → Prop} (e e' : Enc) (d : Bytes)
@@ -177,10 +178,11 @@ theorem ptrInvH_emitSlice {H : Nat × Nat → Prop} (e e' : Enc) (d : Bytes)
 offset, which lies above every footprint) -/
 theorem ptrInvH_trim {H : Nat × Nat → Prop} (e : Enc) (hinv : PtrInvH H e) : PtrInvH H e.trim := by
   intro p hp
-  obtain ⟨ls, en, F, h1, h2, h3, h4⟩ := hinv p (List.mem_filter.1 hp).1
-  refine ⟨ls, en, F, h1, h2.frame (Nat.le_refl _) ?_, h3, h4⟩
-  simp only [Enc.trim, List.take_take]
-  rw [Nat.min_eq_left h3]
+  rcases hinv p (List.mem_filter.1 hp).1 with ⟨ls, en, F, h1, h2, h3, h4⟩ | hd
+  · refine Or.inl ⟨ls, en, F, h1, h2.frame (Nat.le_refl _) ?_, h3, h4⟩
+    simp only [Enc.trim, List.take_take]
+    rw [Nat.min_eq_left h3]
+  · exact Or.inr hd
 
 /-- `Rollback::rollback` to a point taken in state `e0`, from any later state `e` that kept the
 bytes below `e0.offset` and the first `e0.ptrs.length` candidates -/
@@ -190,19 +192,21 @@ theorem ptrInvH_rollback {H : Nat × Nat → Prop} (e0 e : Enc) (hinv : PtrInvH 
     PtrInvH H (Enc.rollback (Enc.rollbackPoint e0) e) := by
   intro p hp
   simp only [Enc.rollback, Enc.rollbackPoint, hptrs] at hp ⊢
-  obtain ⟨ls, en, F, h1, h2, h3, h4⟩ := hinv p hp
-  refine ⟨ls, en, F, h1, h2.frame (Nat.le_refl _) ?_, h3, h4⟩
-  rw [List.take_take, Nat.min_eq_left h3]
-  have := congrArg (List.take en) hbuf
-  simpa [List.take_take, Nat.min_eq_left h3] using this
+  rcases hinv p hp with ⟨ls, en, F, h1, h2, h3, h4⟩ | hd
+  · refine Or.inl ⟨ls, en, F, h1, h2.frame (Nat.le_refl _) ?_, h3, h4⟩
+    rw [List.take_take, Nat.min_eq_left h3]
+    have := congrArg (List.take en) hbuf
+    simpa [List.take_take, Nat.min_eq_left h3] using this
+  · exact Or.inr hd
 
 /-- overwriting bytes that lie outside every run `H` admits (e.g. a reserved `Place`) -/
 theorem ptrInvH_overwrite {H : Nat × Nat → Prop} (e : Enc) (b' : Bytes) (hinv : PtrInvH H e)
     (hsame : ∀ iv, H iv → ∀ i, iv.1 ≤ i → i < iv.2 → b'[i]? = e.buf[i]?) :
     PtrInvH H { e with buf := b' } := by
   intro p hp
-  obtain ⟨ls, en, F, h1, h2, h3, h4⟩ := hinv p hp
-  exact ⟨ls, en, F, h1, h2.frame_footprint (Nat.le_refl _) (fun iv hiv => hsame iv (h4 iv hiv)), h3, h4⟩
+  rcases hinv p hp with ⟨ls, en, F, h1, h2, h3, h4⟩ | hd
+  · exact Or.inl ⟨ls, en, F, h1, h2.frame_footprint (Nat.le_refl _) (fun iv hiv => hsame iv (h4 iv hiv)), h3, h4⟩
+  · exact Or.inr hd
 
 /-- `place`: the reserved octets lie above every footprint, so the invariant holds with the extra
 condition "the run does not touch the place" — which is what `ptrInvH_placeReplace` needs later. -/
